@@ -20,6 +20,7 @@ RULE = (
     "ordered tuples (len 0..3) x time variants; track lists = all sequences (len 0..3) over a track alphabet incl. the empty track; mixed = "
     "all ordered pairs of catalogue values with equal dimension but different class; overwrite = all ordered pairs of a collection "
     "alphabet written to the same path; non-trivial = collection has >= 1 droplet"
+    "; members are additionally brought to their catalogue value after construction (through the property setters, through in-place writes to the data record)"
 )
 ASSUMPTIONS = [
     "values restricted to the catalogue; files written to a RAM-backed temporary directory through the library's own to_file/from_file",
